@@ -81,6 +81,9 @@ func checkC16(c *Ctx) {
 	c.Rule("C16-R8", "GetColor resolves every name of the table: the lookup in ColorNames is reached whatever the length of the name (a fixed-size folding buffer with an off-by-one bound rejects the longest name)")
 	c.Expect("C16-R8", 1)
 	checkColorNameLookupUnconditional(c, p, "C16-R8")
+	c.Rule("C16-R9", "GetColor answers ColorDefault for whatever is neither a name nor #RRGGBB, the empty string (the CSS form of every colour that is not valid) included: each index into the name is behind a test of its length")
+	c.Expect("C16-R9", 1)
+	checkNameIndexGuarded(c, p, "C16-R9")
 	pk := p.pkg("")
 	keys, vals, pos, ok := constMap(pk, "ColorValues")
 	if !ok {
